@@ -433,7 +433,7 @@ pub fn run(ctx: &mut Ctx) {
         }
     }
     // random
-    let per = tier.pick(100, 20_000, 600_000) / ctx.nworkers + 1;
+    let per = tier.pick(100, 25_000, 1_000_000) / ctx.nworkers + 1;
     let mut rng = Rng::derive(ctx.seed, 0x1314, ctx.worker as u64);
     for _ in 0..per {
         let ty = rng.below(NTYPES);
